@@ -19,7 +19,7 @@ import zipfile
 
 VERIF = os.path.dirname(os.path.dirname(os.path.abspath(__file__)))
 REPO = os.environ.get("FSIM_REPO", "/repo")
-CACHE = os.path.join(VERIF, ".cache")
+CACHE = os.environ.get("FSIM_CACHE", os.path.join(VERIF, ".cache"))
 TARGET = os.path.join(CACHE, "target")
 BINARY = os.path.join(TARGET, "release", "fselect")
 SHIM_SRC = os.path.join(VERIF, "shim", "fsim.c")
